@@ -122,6 +122,7 @@ structure DConn where
   resuming : Bool := false         -- MHD_resume_connection called, not yet processed
   newData : Bool := false          -- epoll: edge not yet consumed
   readReady : Bool := false        -- epoll: MHD_EPOLL_STATE_READ_READY
+  inEready : Bool := false         -- epoll: put on the eready list by resume
   hdrFail : Bool := false          -- the pool cannot take the header of MHD's error reply (first attempt)
   trace : List Ev := []            -- events applied so far (reverse order)
 
@@ -170,11 +171,8 @@ def apply (d : D) (dc : DConn) (e : Ev) : DConn × List String :=
 def timedOut (d : D) (dc : DConn) : Bool :=
   d.timeoutMs != 0 && d.now - dc.lastActivity > d.timeoutMs
 
-def eliRead (c : Conn HApp) : Bool := wantsRead c
-def eliWrite (c : Conn HApp) : Bool :=
-  match c.state with
-  | .continueSending | .headersSending | .normalBodyReady | .chunkedBodyReady | .footersSending => true
-  | _ => false
+def eliRead (c : Conn HApp) : Bool := eventLoopInfo c == .read || eventLoopInfo c == .processRead
+def eliWrite (c : Conn HApp) : Bool := eventLoopInfo c == .write
 
 def mkEnv (d : D) (dc : DConn) : IdleEnv :=
   let ns := match dc.sock with
@@ -240,10 +238,13 @@ def doRead (d : D) (dc : DConn) (sockErr : Bool) : DConn × List String :=
       else ({ dc with readReady := false }, [])      -- EAGAIN
 
 def doWrite (d : D) (dc : DConn) : DConn × List String :=
-  if dc.peerGone then apply d dc (.write .err)
+  -- small static replies leave with the header in one sendmsg(): in NORMAL_BODY_READY nothing is
+  -- left to send, handle_write only moves the state on (no send, no MHD_update_last_activity_)
+  let sends := dc.conn.state != CState.normalBodyReady
+  if dc.peerGone && sends then apply d dc (.write .err)
   else
     let (dc1, o) := apply d dc (.write .done)
-    ({ dc1 with lastActivity := if d.timeoutMs != 0 && !dc1.conn.suspended then d.now else dc1.lastActivity }, o)
+    ({ dc1 with lastActivity := if sends && d.timeoutMs != 0 && !dc1.conn.suspended then d.now else dc1.lastActivity }, o)
 
 /-- call_handlers -/
 def callHandlers (d : D) (dc : DConn) (readReady writeReady forceClose : Bool) : D × DConn × List String :=
@@ -311,7 +312,7 @@ def processResumes (d : D) : D × List String :=
     if dc.resuming && dc.conn.suspended then
       let (dc1, o) := apply d { dc with resuming := false } .resume
       let dc1 := { dc1 with lastActivity := if d.timeoutMs != 0 then d.now else dc1.lastActivity,
-                            readReady := true, newData := true }
+                            readReady := true, newData := true, inEready := true }
       (setConn d dc1, out ++ o)
     else (setConn d { dc with resuming := false }, out)) (d, [])
 
@@ -397,7 +398,7 @@ def roundEpoll (d : D) : D × List String :=
     | some dc =>
       if !live dc || fresh.contains i then (d, out) else
       let hup := dc.peerGone && !dc.hupSeen && dc.conn.inEpollSet
-      let ready := hup || (dc.readReady && (eliRead dc.conn)) || eliWrite dc.conn
+      let ready := hup || dc.inEready || (dc.readReady && (eliRead dc.conn)) || eliWrite dc.conn
                    || dc.conn.state == CState.fullReqReceived || dc.conn.state == CState.closed
                    || dc.conn.state == CState.headersProcessed
                    || dc.conn.state == CState.normalBodyUnready || dc.conn.state == CState.chunkedBodyUnready
@@ -405,6 +406,7 @@ def roundEpoll (d : D) : D × List String :=
                    || (dc.conn.state == CState.init && !dc.conn.buf.isEmpty)
       if !ready then (d, out) else
       let dc := if hup then { dc with hupSeen := true } else dc
+      let dc := { dc with inEready := false }
       let (d, dc1, o) := callHandlers d dc dc.readReady true hup
       (setConn d dc1, out ++ o)) (d, [])
   let (d, o5) := processCleanup d
